@@ -30,6 +30,21 @@ func (mt MapType) goString(settings GenerateSettings) string {
 	return "map[" + simpleGoString(mt.Key, settings) + "]" + mt.Value.goString(settings)
 }
 
+// fields returns the fields of the branch's struct or message.
+func (uf UnionField) fields() []Field {
+	if uf.Message != nil {
+		fds := make([]Field, 0, len(uf.Message.Fields))
+		for _, fd := range uf.Message.Fields {
+			fds = append(fds, fd)
+		}
+		return fds
+	}
+	if uf.Struct != nil {
+		return uf.Struct.Fields
+	}
+	return nil
+}
+
 func (uf UnionField) name() string {
 	if uf.Message != nil {
 		return uf.Message.Name
